@@ -98,6 +98,8 @@ type Ctx struct {
 	// HasDeadline/DeadlineAt: the context expires by itself at this simulated time (ns since start).
 	HasDeadline bool
 	DeadlineAt  int64
+	// Uncancellable: context.Background() or a value on it; Cancel does nothing.
+	Uncancellable bool
 }
 
 // NewCtx derives a cancellable context from parent (nil: from context.Background()).
@@ -117,7 +119,7 @@ func BackgroundCtx(name string, valued bool) *Ctx {
 	if valued {
 		c = context.WithValue(c, ctxKey{}, name)
 	}
-	return &Ctx{Name: name, C: c, cancel: func() {}}
+	return &Ctx{Name: name, C: c, cancel: func() {}, Uncancellable: true}
 }
 
 type ctxKey struct{}
@@ -134,7 +136,13 @@ func RootCtx(r *R) *Ctx {
 		r.Probe("root-context-without-done-channel")
 		return BackgroundCtx("root", true)
 	}
-	return NewCtx(nil, "root")
+	c := NewCtx(nil, "root")
+	if r.Choose(6, "root-ctx-uncomparable") == 5 {
+		// the caller's own Context implementation, one that == cannot compare
+		r.Probe("root-context-uncomparable")
+		c.Uncomparable()
+	}
+	return c
 }
 
 // NewCauseCtx derives a context that will be cancelled with a cause of its own (Err() is still
@@ -158,6 +166,29 @@ func PreCancelled(parent *Ctx, name string) *Ctx {
 	return c
 }
 
+// PreCancelledCause is PreCancelled for a context that was cancelled with a cause.
+func PreCancelledCause(parent *Ctx, name string, cause error) *Ctx {
+	c := NewCauseCtx(parent, name, cause)
+	c.Cancelled = true
+	c.CancelSeq = sim.Seq()
+	c.CancelAt = int64(sim.Now())
+	c.cancel()
+	return c
+}
+
+// uncomparableCtx is a caller's own Context implementation of the kind that cannot be compared with
+// ==: a struct passed by value that holds a slice. Everything is delegated to the wrapped context.
+type uncomparableCtx struct {
+	context.Context
+	tag []int
+}
+
+// Uncomparable wraps c's context in such a struct (c keeps being cancellable as before).
+func (c *Ctx) Uncomparable() *Ctx {
+	c.C = uncomparableCtx{Context: c.C, tag: []int{1}}
+	return c
+}
+
 // ExpiredAt returns the simulated time (ns) at which the context expired (own or inherited
 // cancellation, whichever came first) and whether it has expired at all.
 func (c *Ctx) ExpiredAt() (int64, bool) {
@@ -175,7 +206,7 @@ func (c *Ctx) ExpiredAt() (int64, bool) {
 
 // Cancel cancels the context (a schedule point) and records the event.
 func (c *Ctx) Cancel() {
-	if c.Cancelled {
+	if c.Cancelled || c.Uncancellable {
 		return
 	}
 	sim.Yield("ctx.cancel:" + c.Name)
@@ -410,7 +441,7 @@ func WaitDone(ctx context.Context, d time.Duration, site string) bool {
 // oracles work from DeadlineAt, the instant actually used. NewDeadlineCtxExact is for the places
 // that need a deadline at an exact distance.
 func NewDeadlineCtx(parent *Ctx, name string, d time.Duration) *Ctx {
-	return NewDeadlineCtxExact(parent, name, d+time.Duration(3+7*(sim.Seq()%499)))
+	return NewDeadlineCtxExact(parent, name, d+time.Duration(3+14*(sim.Seq()%499)))
 }
 
 func NewDeadlineCtxExact(parent *Ctx, name string, d time.Duration) *Ctx {
@@ -423,6 +454,17 @@ func NewDeadlineCtxExact(parent *Ctx, name string, d time.Duration) *Ctx {
 	// scheduler take a step at that instant so that WaitUntil conditions see the expiry on time.
 	context.AfterFunc(c, func() {})
 	return &Ctx{Name: name, C: c, cancel: cancel, Parent: parent, HasDeadline: true, DeadlineAt: int64(sim.Now() + d)}
+}
+
+// PastDeadline derives a context whose deadline passed before it was made (Err() is
+// context.DeadlineExceeded from the start).
+func PastDeadline(parent *Ctx, name string) *Ctx {
+	c := NewDeadlineCtxExact(parent, name, -time.Millisecond)
+	c.Cancelled = true
+	c.CancelSeq = sim.Seq()
+	c.CancelAt = int64(sim.Now())
+	c.CancelDoneAt, c.CancelDone = c.CancelAt, true
+	return c
 }
 
 // LibraryTasks returns the live tasks that were started by library code (through a rewritten go
